@@ -29,6 +29,8 @@ type vmScenario struct {
 	Repeat  int      `json:"repeat,omitempty"`
 	EmptyAt []int    `json:"empty_at,omitempty"`
 	Empties []string `json:"empties,omitempty"`
+	// C01 uses this engine for its panic oracle only
+	PanicsOnly bool `json:"panics_only,omitempty"`
 }
 
 // ---- host side
@@ -328,6 +330,9 @@ var dbgNative func(form, out string)
 func execFaults(sc *vmScenario, res *kernel.Result) {
 	prop := sc.Prop
 	fail := func(clause, site, f string, a ...interface{}) {
+		if sc.PanicsOnly && clause != "P-panic" {
+			return
+		}
 		res.Violate(prop, prop+"."+clause, site, fmt.Sprintf(f, a...))
 	}
 	nForms := len(sc.Forms)
